@@ -108,13 +108,14 @@ func (r *sharedReader) Read(name string, rd io.Reader) ([]*lisp.LVal, error) {
 // --------------------------------------------------------------- generator
 
 type ilvGen struct {
-	r         *Rand
-	litN      int
-	prN       int
-	defs      []*Node
-	lits      []string // names of literal-returning functions
-	kind      map[string]string
-	needConst bool
+	r          *Rand
+	litN       int
+	prN        int
+	defs       []*Node
+	lits       []string // names of literal-returning functions
+	kind       map[string]string
+	needConst  bool
+	needStdlib bool
 }
 
 func (g *ilvGen) intLits(n int) []*Node {
@@ -224,7 +225,29 @@ func (g *ilvGen) less() *Node {
 // mutate applies an in-place or capacity-sensitive builtin to a view.
 func (g *ilvGen) mutate() *Node {
 	v := g.view(g.r.Range(0, 2))
-	switch g.r.Pick([]int{8, 3, 4, 3, 3, 2, 2, 2, 2, 2, 2, 1, 3, 4, 2, 4, 2}) {
+	switch g.r.Pick([]int{8, 3, 4, 3, 3, 2, 2, 2, 2, 2, 2, 1, 3, 4, 2, 4, 2, 4, 4, 3}) {
+	case 17:
+		// quasiquote templates that splice a literal (alone, at the tail, in the middle)
+		tpl := PickNode(g.r,
+			L(Call("unquote-splicing", v)),
+			L(I(7), Call("unquote-splicing", v)),
+			L(Call("unquote-splicing", v), I(7)),
+			L(I(1), L(Call("unquote-splicing", v)), I(2)))
+		return Call("stable-sort", g.less(), Call("quasiquote", tpl))
+	case 18:
+		// copy idioms, including of empty sequences, then mutation of the copy
+		src := PickNode(g.r, v, A("'()"), Call("list"), Call("vector"), Call("cdr", Call("list", I(1))))
+		cp := Call("concat", QS(PickStr(g.r, []string{"vector", "list"})), src)
+		return PickNode(g.r, Call("append!", cp, A("ctr")), Call("stable-sort", g.less(), cp), Call("append!", Call("concat", QS("vector")), A("ctr"), I(1)))
+	case 19:
+		// library calls that may keep process-wide tables (only meaningful with the stdlib loaded)
+		g.needStdlib = true
+		pat := PickStr(g.r, []string{"a+", "[0-9]+", "^x", "b|c", "a+b", "(ab)*", "k[a-c]", "z$"})
+		return PickNode(g.r,
+			Call("regexp:regexp-match?", Str(pat), Str("xaab12kc")),
+			Call("json:dump-string", Call("sorted-map", Str("k"), v)),
+			Call("string:join", Call("map", QS("list"), A("to-string"), v), Str(",")),
+			Call("json:load-string", Str("[3,1,2]")))
 	case 13:
 		// the literal's elements become a callee's &rest list
 		body := PickNode(g.r, Call("stable-sort", A("<"), A("xs")), Call("append!", A("xs"), I(30)), Call("stable-sort", A("<"), Call("cdr", A("xs"))))
@@ -353,6 +376,7 @@ func (ilvEngine) Gen(r *Rand, tier string) any {
 		if r.Chance(1, 6) {
 			k.MaxPhys = r.Range(3, 12)
 		}
+		k.Stdlib = g.needStdlib
 		c.Knobs = append(c.Knobs, k)
 		c.Program = append(c.Program, r.Chance(1, 3))
 	}
@@ -454,17 +478,6 @@ func (ilvEngine) Run(ci any, st *Stats) *Violation {
 	prog, err := lisp.ReadProgram(&sharedReader{src: src, exprs: exprs, inner: parser.NewReader()}, "shared", strings.NewReader(src))
 	if err != nil {
 		return Violf("harness", "%v", err)
-	}
-
-	// solo twins first: fresh parse per load, running alone
-	twins := make([][]ilvLoadResult, n)
-	for i := 0; i < n; i++ {
-		tw, err := runSolo(c.Knobs[i], src, c.Loads[i], c.Program[i])
-		if err != nil {
-			return Violf("harness", "%v", err)
-		}
-		twins[i] = tw
-		st.Runs += int64(c.Loads[i])
 	}
 
 	// concurrent GenSym / GenEnvID callers on one runtime: the only operations
@@ -598,6 +611,19 @@ func (ilvEngine) Run(ci any, st *Stats) *Violation {
 		}
 	}
 	wg.Wait()
+	// solo twins: fresh parse per load, running alone.  They run AFTER the
+	// interleaved run so that lazily filled process-wide tables are first
+	// touched from inside the concurrent goroutines, not pre-warmed here.
+	twins := make([][]ilvLoadResult, n)
+	for i := 0; i < n; i++ {
+		tw, err := runSolo(c.Knobs[i], src, c.Loads[i], c.Program[i])
+		if err != nil {
+			return Violf("harness", "%v", err)
+		}
+		twins[i] = tw
+		st.Runs += int64(c.Loads[i])
+	}
+
 	st.Add("scheduling_events", int64(events))
 	st.Add("context_switches", int64(switches))
 
